@@ -162,6 +162,17 @@ def connected(layouts, nprocs):
     return len(seen) == len(names)
 
 
+def swapper_tiles_job(comm, shape, nprocs):
+    """the index ranges every rank owns in every layout of the driver's layout swapper (2-D group + two single-direction groups)"""
+    from harness.scenarios import driver_swapper
+    sw, eta = driver_swapper(comm, shape, nprocs)
+    out = {}
+    for name in ("v_parallel_2d", "mode_solve", "v_parallel_1d", "poloidal"):
+        l = sw.getLayout(name)
+        out[name] = ([int(x) for x in l.starts], [int(x) for x in l.ends], [int(x) for x in l.dims_order], [int(x) for x in l.nprocs])
+    return out
+
+
 def run(ctx):
     from mpi4py import MPI
     rng = random.Random(ctx.seed)
@@ -236,6 +247,31 @@ def run(ctx):
                 correct = all_blocks_correct(res.values, shape, nprocs, layouts)
             events.append({"k": "exactbuf", "ok": bool(ok), "correct": bool(correct), "err": res.describe()})
             meta[len(events)] = ("exactbuf", tuple(shape), tuple(nprocs), usebuf, tuple(sorted(layouts.items())) and str(layouts))
+    # 5. layouts of a layout swapper (groups distributed over 2, 1 and 1 process directions): the blocks of all ranks cover the global
+    # array with every index owned exactly (number of ranks / processes of that layout) times - once per replica
+    for g in ([2, 3], [3, 2], [2, 2], [1, 3], [3, 1]):
+        shape = [6, 7, 8]
+        n = int(np.prod(g))
+        res = MPI.run(n, swapper_tiles_job, policy="random", seed=rng.randint(0, 999), args=(shape, g))
+        if not res.ok:
+            ctx.violation({"kind": "accessor-setup-fails", "swapper": True}, "building the layout swapper failed: " + res.describe(), {"shape": shape, "nprocs": g})
+            continue
+        for name in res.values[0]:
+            cnt = np.zeros(shape, dtype=int)
+            procs = None
+            for v in res.values:
+                st, en, order, P = v[name]
+                procs = int(np.prod(P))
+                box = [None] * 3
+                for pos, d in enumerate(order):
+                    box[d] = slice(st[pos], en[pos])
+                cnt[tuple(box)] += 1
+            want = n // max(1, procs)
+            ctx.count(("swapper-tiling", tuple(g), name))
+            if not (cnt == want).all():
+                ctx.violation({"kind": "swapper-layout-does-not-tile", "layout": name},
+                              "layout %s of the layout swapper on process grid %s: global indices are owned %s times (expected %d each: %d ranks / %d processes of "
+                              "the layout)" % (name, g, sorted(set(cnt.ravel().tolist())), want, n, procs), {"nprocs": g, "layout": name})
     rej, drift = ctx.validate_trace("C02Trace", events, what="tables, layouts, accessors, buffers from the real classes")
     for i, e in enumerate(events, 1):
         m = meta[i]
